@@ -1,4 +1,4 @@
-(** TierBridgeForest.v — navigation lemmas on forests needed by TierBridge.v: where the node [p] is after
+(** TierBridgeForest.v — navigation lemmas on forests needed by TierBridgeLemmas.v: where the node [p] is after
     [set_children], that the children of a node of a forest with distinct identities have distinct
     identities, are not roots and are nodes of the forest, and the list-function dictionary between the
     std++ list operations of CoreSpec.v ([delete], [<[ := ]>], [insert_at], [!!]) and the hand-written ones
